@@ -563,6 +563,16 @@ func (x *Exec) evalQuant(env *CEnv, n *CQuant) (*CV, error) {
 	// in the shape (bvadd OFF k), quantify over a = OFF + k instead (a bijection
 	// on 64-bit vectors). Triggers then are plain (select A a), which survive
 	// the solvers' arithmetic normalisation.
+	// explicit trigger: an application of an opaque spec function that has all
+	// bound variables as direct arguments (avoids matching loops on chains
+	// like blocks[k] / blocks[k-1])
+	var qnames []string
+	for _, v := range n.Vars {
+		qnames = append(qnames, inner.vars[v.Name].T.S)
+	}
+	if pat := x.opaquePattern(bs, qnames); pat != "" {
+		return &CV{T: T(SBool, "(%s (%s) (! %s :pattern (%s)))", q, strings.Join(binders, " "), bs, pat), Ty: types.Typ[types.Bool]}, nil
+	}
 	for i, v := range n.Vars {
 		name := inner.vars[v.Name].T.S
 		if inner.vars[v.Name].T.Sort != SBV64 {
@@ -977,9 +987,11 @@ func basicTypeByName(s string) types.Type {
 
 // bytesEq: extensional equality of two byte slices (bytes.Equal).
 func (x *Exec) bytesEq(st *State, a, b Term) Term {
-	x.sc.Decl("bytes.eq", `(define-fun bytes.eq ((h (Array Int (Array (_ BitVec 64) (_ BitVec 8)))) (a Slice) (b Slice)) Bool
+	x.sc.Decl("bytes.eq", `(declare-fun bytes.eq ((Array Int (Array (_ BitVec 64) (_ BitVec 8))) Slice Slice) Bool)
+(assert (forall ((h (Array Int (Array (_ BitVec 64) (_ BitVec 8)))) (a Slice) (b Slice)) (! (= (bytes.eq h a b)
   (and (= (slen a) (slen b))
-       (forall ((i (_ BitVec 64))) (=> (bvult i (slen a)) (= (select (select h (sbase a)) (bvadd (soff a) i)) (select (select h (sbase b)) (bvadd (soff b) i)))))))`)
+       (forall ((i (_ BitVec 64))) (=> (bvult i (slen a)) (= (select (select h (sbase a)) (bvadd (soff a) i)) (select (select h (sbase b)) (bvadd (soff b) i)))))))
+  :pattern ((bytes.eq h a b)))))`)
 	return App(SBool, "bytes.eq", x.heap(st, SBV8), a, b)
 }
 
@@ -1133,6 +1145,7 @@ func (x *Exec) compileSpec(env *CEnv, sp *SpecFunc) (*compiledSpec, error) {
 			sorts = append(sorts, f[1])
 		}
 		app := "(" + cs.name + " " + strings.Join(names, " ") + ")"
+		x.opaqueSpecs[cs.name] = true
 		x.sc.Decl("spec:"+key, fmt.Sprintf("(declare-fun %s (%s) %s)\n(assert (forall (%s) (! (= %s %s) :pattern (%s))))",
 			cs.name, strings.Join(sorts, " "), cs.retS, strings.Join(all, " "), app, bs, app))
 		return cs, nil
@@ -1177,10 +1190,64 @@ func soleIndexOffset(body, name string) (string, bool) {
 		if strings.Contains(o, name) {
 			continue
 		}
+		if !strings.HasPrefix(o, "(soff ") {
+			continue // only slice-element addressing is rewritten
+		}
 		if found && o != off {
 			return "", false
 		}
 		off, found = o, true
 	}
 	return off, found
+}
+
+// opaquePattern returns an application "(spec_f a1 .. an)" of an opaque spec
+// function occurring in body in which every bound variable is a direct argument.
+func (x *Exec) opaquePattern(body string, vars []string) string {
+	for name := range x.opaqueSpecs {
+		needle := "(" + name + " "
+		for i := 0; ; {
+			j := strings.Index(body[i:], needle)
+			if j < 0 {
+				break
+			}
+			start := i + j
+			end := sortEnd(body, start)
+			app := body[start:end]
+			i = start + len(needle)
+			args := splitArgs(app[len(needle) : len(app)-1])
+			ok := true
+			for _, v := range vars {
+				found := false
+				for _, a := range args {
+					if a == v {
+						found = true
+					}
+				}
+				if !found {
+					ok = false
+				}
+			}
+			if ok {
+				return app
+			}
+		}
+	}
+	return ""
+}
+
+func splitArgs(s string) []string {
+	var out []string
+	for i := 0; i < len(s); {
+		for i < len(s) && s[i] == ' ' {
+			i++
+		}
+		if i >= len(s) {
+			break
+		}
+		e := sortEnd(s, i)
+		out = append(out, s[i:e])
+		i = e
+	}
+	return out
 }
